@@ -144,6 +144,10 @@ def families():
         # the very same input object again after a failed call and an in-place repair (recursive types)
         "retry_same_object": {(1, 1): um(SM.Comment, lambda: SM.payload1(True)), (1, 2): um(SM.Comment, lambda: SM.payload1(False)),
                               (2, 1): um(SM.Chain, lambda: SM.payload2(True)), (2, 2): um(SM.Chain, lambda: SM.payload2(False))},
+        # a class and its subclass (which adds a member): whichever is met first must not decide how the other is taken apart
+        "subclass_after_base": {(1, 1): ma(SM.Account, lambda: SM.Account(2, "bob")), (1, 2): ma(SM.AdminAccount, lambda: SM.AdminAccount(1, "ann", 2)),
+                                (2, 1): (lambda x: list(serdes.iteritems(x)), lambda: SM.Account(3, "cy")),
+                                (2, 2): (lambda x: list(serdes.iteritems(x)), lambda: SM.AdminAccount(4, "di", 5))},
         "dateparse": {(1, 1): um(datetime.datetime, lambda: "2020-01-01"), (1, 2): um(datetime.date, lambda: "2020-01-01"),
                       (2, 1): um(datetime.timedelta, lambda: "PT1S"), (2, 2): um(datetime.timedelta, lambda: 1)},
     }
@@ -288,4 +292,4 @@ class Zygote:
 FAMILY_NAMES = ["union_unmarshal", "union_marshal", "union_in_list", "instants", "instants_in_list", "text_carriers",
                 "bare_containers", "numbers", "same_name_classes", "string_refs", "recursive", "codec_configs", "dateparse",
                 "build_order", "build_order_nt", "same_routine_inputs", "same_routine_inputs2", "private_fields", "nested_text",
-                "nested_text2", "duration_classes", "temporal_text_targets", "equal_keys", "same_origin_kinds", "same_origin_kinds2", "value_classes", "retry_same_object"]
+                "nested_text2", "duration_classes", "temporal_text_targets", "equal_keys", "same_origin_kinds", "same_origin_kinds2", "value_classes", "retry_same_object", "subclass_after_base"]
